@@ -205,6 +205,7 @@ def check_effects(chk, F, specs, effects, rule, fs):
                 return out
             wk = numabs.NumWalker(b, cfg, F, C, assume)
             wk.inline = spec.inline
+            wk.gen_map = dict(getattr(spec, "gen", None) or {})
             paths = wk.run()
             num = wk.num
             results = {}
